@@ -21,6 +21,9 @@ def fault_points(events):
     return counts
 
 
+F17 = "F17-reduce-swallows-stop-error-of-a-retired-combiner"
+
+
 class C14:
     id = "C14"
     level = "fault_enumeration"
@@ -47,7 +50,7 @@ class C14:
         if rng.random() < 0.7:
             stmts += ["switch 20 key=2 cases=1:%s,2:%s x=3" % (rng.choice(("Accum", "AddOne")), rng.choice(("Accum", "Chain"))), "cons 21 20"]
         if rng.random() < 0.5:
-            stmts += ["reduce 30 fn=AddInts c=1", "cons 31 30"]
+            stmts += ["reduce 30 fn=AddIntsL c=1", "cons 31 30"]       # combiner graphs with lifecycle hooks and fault points
         return dict(kind="dynamic", sc=dict(window=(0, end), writers=writers, stmts=stmts), seed=seed)
 
     def gen(self, seed):
@@ -93,7 +96,7 @@ class C14:
         if plans is None and dynamic:
             # fault points of the library functions inside dynamic children: function kind x phase x occurrence
             counts = {}
-            fid = {"Accum": 7002, "AddOne": 7001}
+            fid = {"Accum": 7002, "AddOne": 7001, "AddIntsL": 7006}
             for e in base.events:
                 if e["k"] == "h" and e["f"] in fid:
                     ph = {"ev": "eval", "start": "start", "stop": "stop"}[e["e"]]
@@ -143,6 +146,7 @@ class C14:
         viol = None
         sample_plan = None
         digests = [base.digest]
+        known_f17 = None
         for plan in plans:
             text, res = self.one(prog, plan["faults"], plan["cleanup"], plan["stopat"], fresh)
             if not res.ok:
@@ -165,12 +169,23 @@ class C14:
                 ph = [f["phase"] for f in inf["fired"]]
                 if "eval" in ph and "stop" in ph and ph.index("eval") < ph.index("stop"):
                     stats["probe_stop_fault_after_eval_fault"] += 1
+            if v and v[0] == "error_swallowed" and dynamic and plan["faults"] and all(f[0] == 7006 and f[1] == "stop" for f in plan["faults"]):
+                # known finding F17: reduce_ stops a combiner graph it retires while evaluating through stop_combiner_noexcept
+                known_f17 = "plan %s: %s" % (plan, v[1])
+                continue
+            if v and v[0] == "wrong_error" and dynamic and "first fault was 'injected fault id=7006 phase=stop" in v[1]:
+                # the same finding: the swallowed stop error of a retired combiner came first, a later fault is what the caller sees
+                known_f17 = "plan %s: %s" % (plan, v[1][:300])
+                continue
             if v:
                 viol = dict(clause=v[0], detail="plan %s: %s" % (plan, v[1]))
                 sample_plan = (plan, text)
                 break
         nontrivial = sum(stats["faults_fired"].values()) > 0
         sample = dict(scenario=text0, plans=plans[:6])
+        if not viol and known_f17:
+            return Outcome(violation=dict(clause="known_class:F17", detail=known_f17, known=F17), stats=stats,
+                           digest=runner.h64(digests) and "%016x" % runner.h64(digests), nontrivial=nontrivial, sample=sample, shape=runner.h64(text0, len(plans)))
         if viol:
             sample = dict(scenario=sample_plan[1], plan=sample_plan[0])
         return Outcome(violation=viol, stats=stats, digest=runner.h64(digests) and "%016x" % runner.h64(digests), nontrivial=nontrivial, sample=sample,
